@@ -8,7 +8,7 @@
 mod keylife;
 
 use hx_common::{Case, Rng, run_harness};
-use keylife::{CAPS, DRIVERS, Weights, case, epilogue, exec_case, nontrivial, random_program};
+use keylife::{CAPS, DRIVERS, Weights, case, epilogue, exec_isolated, random_program, worker_main};
 
 /// every way to get rid of one pending op × when the kernel / the harness makes it ready
 fn single_op_family(out: &mut Vec<Case>, rng: &mut Rng, caps: &[u32]) {
@@ -107,6 +107,50 @@ fn f13_family(out: &mut Vec<Case>) {
     }
 }
 
+/// polling driver: the poller's registration of a descriptor carries the address of the FRONT key of its queue. An op at
+/// (or near) the front is cancelled and released, unrelated receives re-use its storage, then the descriptor becomes
+/// ready chunk by chunk: every chunk must reach the live front waiter (`C01:stale-poller-key`)
+fn stale_key_family(out: &mut Vec<Case>, rng: &mut Rng) {
+    for n in [2usize, 3] {
+        for victim in 0..n - 1 {
+            for route in ["cancel", "token", "ccancel"] {
+                for decoys in [0usize, 3] {
+                    let mut l = vec!["cfg poll 8".to_string()];
+                    for _ in 0..n {
+                        l.push("push rd 0".into());
+                    }
+                    match route {
+                        "cancel" => l.push(format!("cancel {victim}")),
+                        "token" => {
+                            l.push(format!("token {victim}"));
+                            l.push(format!("tcancel {victim}"));
+                        }
+                        _ => l.push(format!("ccancel {victim}")),
+                    }
+                    // the cancellation is reported; collecting / dropping the key releases the op's storage
+                    l.push("poll".into());
+                    l.push(format!("pop {victim}"));
+                    l.push(format!("drop {victim}"));
+                    let mut ops: Vec<(&'static str, bool)> = (0..n).map(|_| ("rd", false)).collect();
+                    for _ in 0..decoys {
+                        l.push("push rd 1".into());
+                        ops.push(("rd", false));
+                    }
+                    for _ in 0..n - 1 {
+                        l.push("ready 0 1".into());
+                        l.push("poll".into());
+                        for i in (0..n).rev().filter(|i| *i != victim) {
+                            l.push(format!("pop {i}"));
+                        }
+                    }
+                    epilogue(rng, &mut l, &ops, true, false);
+                    out.push(case(format!("stale/n{n}/v{victim}/{route}/d{decoys}"), l));
+                }
+            }
+        }
+    }
+}
+
 /// submission-queue overflow: more pushes than SQ entries before the first submit
 fn overflow_family(out: &mut Vec<Case>, rng: &mut Rng) {
     for cap in [1u32, 2, 4] {
@@ -136,6 +180,7 @@ fn generate(tier: &str, rng: &mut Rng) -> Vec<Case> {
     let thorough = tier == "thorough";
     f13_family(&mut out);
     overflow_family(&mut out, rng);
+    stale_key_family(&mut out, rng);
     if thorough {
         single_op_family(&mut out, rng, &CAPS);
     } else {
@@ -168,9 +213,12 @@ fn generate(tier: &str, rng: &mut Rng) -> Vec<Case> {
 }
 
 fn main() {
+    if std::env::var("KL_WORKER").is_ok() {
+        return worker_main();
+    }
     run_harness(
         generate,
-        |c| exec_case(c, nontrivial),
+        |c| exec_isolated(c),
         "an operation was pending in a driver and the storage status vector took at least 3 distinct values",
     );
 }
